@@ -34,11 +34,31 @@ def jdmapC10 (j : Json) : R C10.DMap :=
     | .arr #[p, ps] => pure ((← jstr p), (← jstrs ps))
     | _ => .error s!"expected [peptide, proteins], got {e.compress}") j
 
+/-- a digest of either kind: `[[peptide, [proteins…]], …]` (dict), or the pair of a non-specific search
+    `{"index": [[prefix, [proteins…]], …], "seqs": [[protein, sequence], …]}` -/
+def jdigestC10 (j : Json) : R C10.Digest :=
+  match jgetOpt j "index" with
+  | some idx => do
+    let kv (e : Json) : R (List Char × List (List Char)) := do
+      match e with
+      | .arr #[k, ps] => pure ((← jstr k).toList, (← jstrs ps).map String.toList)
+      | _ => .error s!"expected [prefix, proteins], got {e.compress}"
+    let sq (e : Json) : R (List Char × List Char) := do
+      match e with
+      | .arr #[k, v] => pure ((← jstr k).toList, (← jstr v).toList)
+      | _ => .error s!"expected [protein, sequence], got {e.compress}"
+    pure (.hashed (← jlist kv idx) (← jlist sq (← jget j "seqs")))
+  | none => do pure (.dict (← jdmapC10 j))
+
+def isDictC10 : C10.Digest → Option C10.DMap
+  | .dict m => some m
+  | .hashed _ _ => none
+
 def formatNameC10 : C10.Format → String
   | .maxquant => "maxquant" | .percNative => "percolator_native" | .percMokapot => "percolator_mokapot"
   | .fragpipe => "fragpipe" | .sage => "sage" | .diann => "diann"
 
-/-- `{"op":"ingest","method":<shipped method name>,"mokapot":bool,"maps":[dmap…],"files":[[row…]…]}`
+/-- `{"op":"ingest","method":<shipped method name>,"mokapot":bool,"maps":[dmap | {"index":…,"seqs":…} …],"files":[[row…]…]}`
     → `{"pil":[[peptide,[num,den],[proteins…]]…],"format":…,"remap":bool,"razor":bool}` (dict order) for
     every shipped method, razor methods included (mode from the description `scoreType [+ " razor"]`; an optional
     field `"description"` supplies it for a method file that is not in the generated table);
@@ -56,12 +76,18 @@ def handleIngest (j : Json) : R Json := do
   | none => .error s!"unknown method {name}"
   | some d =>
     let mode := C10.modeOfScoreType d mokapot
-    let maps ← jlist jdmapC10 (← jget j "maps")
+    let digests ← jlist jdigestC10 (← jget j "maps")
     let files ← jlist (jlist jrawRowC10) (← jget j "files")
     if mode.format = .sage ∧ files.any (fun f => f.any (fun r => match r.score with
         | some x => x.den != 1
         | none => false)) then .error "sage exponent is not an integer" else
-    match C10.ingestFilesChecked C10.exactT mode maps files with
+    if digests.any (fun d => !d.wf) then .error "a protein of the prefix index has no sequence (KeyError in the code): outside the model" else
+    -- plain dicts only: the function of the first 26 theorems; as soon as one map is the (prefix index, sequences)
+    -- pair of a non-specific search: the same ingestion over `Digest` (`digest_dicts_agree`: they coincide on dicts)
+    let run := match digests.mapM isDictC10 with
+      | some maps => C10.ingestFilesChecked C10.exactT mode maps files
+      | none => C10.ingestFilesCheckedD C10.exactT mode digests files
+    match run with
     | .error .badScoreCell => pure (ofErr "bad_score_cell")
     | .error .negInfPep => .error "a PSM with PEP -inf is outside the model"
     | .ok pil =>
@@ -81,6 +107,15 @@ def handleStrops (j : Json) : R Json := do
     ("s22", .str (C10.slice 2 2 s)),
     ("flank", .bool (C10.hasFlanks s))]) ss)])
 
+/-- `{"op":"c10_lookup","map":<digest>,"peptides":[…]}` → `{"out":[[protein…]…]}`: `digest.get_proteins` on a digest of
+    either kind -/
+def handleLookupC10 (j : Json) : R Json := do
+  let d ← jdigestC10 (← jget j "map")
+  if !d.wf then .error "a protein of the prefix index has no sequence (KeyError in the code): outside the model" else
+  let qs ← jstrs (← jget j "peptides")
+  pure (obj [("out", ofList (fun q => ofStrs (d.lookup q)) qs)])
+
 /-- protocol handlers of property C10: (op name, handler) -/
-def handlersC10 : List (String × (Json → R Json)) := [("ingest", handleIngest), ("c10_strops", handleStrops)]
+def handlersC10 : List (String × (Json → R Json)) :=
+  [("ingest", handleIngest), ("c10_strops", handleStrops), ("c10_lookup", handleLookupC10)]
 end PgFdr.Driver
